@@ -39,7 +39,7 @@ func init() {
 	register("C07", &Prop{Gen: genC07, Run: runC07})
 }
 
-var c07Mixes = []string{"all", "delete", "putflush", "tx", "compact", "scan", "stats", "registry"}
+var c07Mixes = []string{"all", "delete", "putflush", "tx", "compact", "scan", "stats", "registry", "puts"}
 
 func genC07(w *bufio.Writer, seed int64, n int, tier string) {
 	r := rand.New(rand.NewSource(seed*7919 + 17))
@@ -375,19 +375,11 @@ type c07Class struct {
 	fns  []string // every function of the finding must be in this set
 }
 
-var c07Classes = []c07Class{
-	// D15: unsynchronised maps of the tombstone tracker (listed only while unrepaired)
-	{"tombstone_tracker_unsynchronised", "RACE", []string{
-		"pkg/compaction.(*TombstoneTracker).AddTombstone", "pkg/compaction.(*TombstoneTracker).ShouldKeepTombstone",
-		"pkg/compaction.(*TombstoneTracker).CollectGarbage", "pkg/compaction.(*TombstoneTracker).ForcePreserveTombstone"}},
-	{"tombstone_tracker_unsynchronised", "FATAL", []string{
-		"pkg/compaction.(*TombstoneTracker).AddTombstone", "pkg/compaction.(*TombstoneTracker).ShouldKeepTombstone",
-		"pkg/compaction.(*TombstoneTracker).CollectGarbage", "pkg/compaction.(*TombstoneTracker).ForcePreserveTombstone"}},
-	// Close of the storage manager reads the SSTable list / closes the log without the storage
-	// lock while the engine's own background flush goroutine is still publishing a table
-	{"close_races_background_flush", "RACE", []string{
-		"pkg/engine/storage.(*Manager).Close", "pkg/engine/storage.(*Manager).flushMemTable"}},
-}
+// No class is listed at present: the three races found while building this check (tombstone
+// tracker maps, storage Close against the background flush, registry clean-up reading a
+// transaction's last-activity time) and the GetWAL race were repaired by fix: commits and are
+// kept as regression cases in corpus/C07.
+var c07Classes = []c07Class{}
 
 func c07ClassOf(f c07Finding) string {
 	for _, c := range c07Classes {
@@ -480,15 +472,20 @@ func runC07(c *Case, out func(string)) {
 		rc = 0
 	}
 	calls, flushes := 0, 0
-	var errLines []string
+	var errLines, effects []string
+	failedWrites := 0
 	for _, l := range strings.Split(stderr, "\n") {
 		if strings.HasPrefix(l, "STRESS-DONE ") {
 			f := strings.Fields(l)
 			calls, _ = strconv.Atoi(hdrVal(f, "calls", "0"))
 			flushes, _ = strconv.Atoi(hdrVal(f, "sstables", "0"))
+			failedWrites, _ = strconv.Atoi(hdrVal(f, "failed_writes", "0"))
 		}
 		if strings.HasPrefix(l, "STRESS-ERR ") {
 			errLines = append(errLines, strings.TrimPrefix(l, "STRESS-ERR "))
+		}
+		if strings.HasPrefix(l, "STRESS-EFFECT ") {
+			effects = append(effects, strings.TrimPrefix(l, "STRESS-EFFECT "))
 		}
 	}
 	for _, f := range finds {
@@ -497,6 +494,12 @@ func runC07(c *Case, out func(string)) {
 	for i, l := range errLines {
 		if i < 6 {
 			out("NOTE call-error " + l)
+		}
+	}
+	// not C07's property, but recorded: a write that returned an error and is visible anyway
+	for i, l := range effects {
+		if i < 6 {
+			out("NOTE failed-write-visible " + l)
 		}
 	}
 	allKnown := len(finds) > 0
@@ -544,6 +547,6 @@ func runC07(c *Case, out func(string)) {
 	if len(finds) > 0 || (gor >= 2 && calls >= 100 && flushes >= 1) {
 		nontrivial = 1
 	}
-	out(fmt.Sprintf("META gor=%d ms=%d mix=%s build=%s calls=%d findings=%d call_errors=%d wall_ms=%d nontrivial=%d",
-		gor, ms, hdrVal(c.Hdr, "mix", "all"), build, calls, len(finds), len(errLines), time.Since(t0).Milliseconds(), nontrivial))
+	out(fmt.Sprintf("META gor=%d ms=%d mix=%s build=%s calls=%d findings=%d call_errors=%d failed_writes=%d failed_writes_visible=%d wall_ms=%d nontrivial=%d",
+		gor, ms, hdrVal(c.Hdr, "mix", "all"), build, calls, len(finds), len(errLines), failedWrites, len(effects), time.Since(t0).Milliseconds(), nontrivial))
 }
